@@ -1192,7 +1192,7 @@ package tally
 //@ func (*scope).Snapshot$1
 //@   property C11
 //@   allocs
-//@   requires scopeWF(ss) && s != nil && snap != nil && snap.counters != nil && snap.gauges != nil && snap.timers != nil && snap.histograms != nil
+//@   requires scopeWF(ss) && ifbound(s != nil) && snap != nil && snap.counters != nil && snap.gauges != nil && snap.timers != nil && snap.histograms != nil
 //@   acquires ss.cm, ss.gm, ss.tm, ss.hm
 //@   modifies snap.counters, snap.gauges, snap.timers, snap.histograms
 //@   witness tc map[string]string = tags
